@@ -372,11 +372,42 @@ def _rec2(n, log, fq):
             _rec2(c, log, fq)
 
 
+def _forwhile(n, log, fq):
+    """for(; c; step) body   ->   while(c) { body; step; }   when the loop declares nothing and its body holds no `continue`
+    (a continue would skip the step in the while form)"""
+    for c in n.get("inner", []) or []:
+        if c:
+            _forwhile(c, log, fq)
+    if n.get("kind") != "ForStmt":
+        return
+    raw = n.get("inner") or []
+    if len(raw) != 5 or (raw[0] and raw[0].get("kind") not in (None, "NullStmt")) or raw[1] or not raw[2] or not raw[3] or not raw[4]:
+        return
+
+    def has_continue(x):
+        if not x:
+            return False
+        if x.get("kind") == "ContinueStmt":
+            return True
+        if x.get("kind") in ("ForStmt", "WhileStmt", "DoStmt", "CXXForRangeStmt", "LambdaExpr"):
+            return False
+        return any(has_continue(c_) for c_ in x.get("inner", []) or [])
+    if has_continue(raw[4]):
+        return
+    body = raw[4]
+    stmts = kids(body) if body.get("kind") == "CompoundStmt" else [body]
+    nb = {"kind": "CompoundStmt", "range": body.get("range", n.get("range", {})), "inner": list(stmts) + [raw[3]]}
+    n["kind"] = "WhileStmt"
+    n["inner"] = [raw[2], nb]
+    log.append((fq, "for", "for(; c; step) written as while"))
+
+
 def run(tu):
     log = []
     for f in tu.all_fns():
         if f.body is not None:
             _rangefor(f.body, log, f.qual)
+            _forwhile(f.body, log, f.qual)
             _rec3(f.body, log, f.qual)
             _rec4(f.body, log, f.qual)
             _rec(f.body, log, f.qual)
